@@ -4,6 +4,7 @@ import (
 	"fmt"
 	"math/rand"
 	"net/netip"
+	"sync"
 	"time"
 
 	"github.com/DataDog/datadog-traceroute/icmp"
@@ -77,8 +78,15 @@ type scenarioOut struct {
 	js   []judged
 }
 
+// allocMu: single-flow scenarios pin the process-wide identifier allocators (echo id, IP-ID, TCP sequence) and may run
+// in parallel with each other (each reads its identifiers back from the wire); a multi-flow request must not have the
+// allocators reset under it by another worker, so it holds the lock exclusively.
+var allocMu sync.RWMutex
+
 // runScenario executes sc with all universal monitors attached. The caller must call out.e.close().
 func runScenario(c *fw.Ctx, sc scenario) *scenarioOut {
+	allocMu.RLock()
+	defer allocMu.RUnlock()
 	spec := defaultSpec(sc.v, c.Worker, sc.win.first, sc.win.last)
 	if sc.spec != nil {
 		sc.spec(&spec)
